@@ -245,7 +245,7 @@ def run(prog, rep):
         dfn = au.fn(dname) if au else None
         okn = dfn is not None and bool(dfn.returns())
         for (b, i, r) in (dfn.returns() if dfn else []):
-            e = strip_casts(r.get("e"))
+            e = dfn.resolve(r.get("e")) if r.get("e") is not None else None        # (also through a typed local)
             rec = au.records.get(e.get("rec")) if (e is not None and e["k"] == "member") else None
             f = rec.field(e["field"]) if rec else None
             if not (f is not None and "[" in (f.get("ts") or "") and root_var(e) == dfn.param_names()[0]):
@@ -637,6 +637,17 @@ def run(prog, rep):
                     callers_.setdefault(c_["callee"], set()).add(f_.name)
         own_ = set(n_ for n_, cs_ in callers_.items() if au.functions[n_].static and cs_ <= {upf.name})
         upf_geo = upf.inlined(only=own_) if own_ else upf
+        # likewise for finish: steps split off into helpers only finish (or such a helper) calls - "pad length", "append the length" -
+        # are part of it
+        own_f, grew_ = set(), True
+        while grew_:
+            grew_ = False
+            for n_, cs_ in callers_.items():
+                if n_ not in own_f and au.functions[n_].static and cs_ <= ({fin.name} | own_f):
+                    own_f.add(n_)
+                    grew_ = True
+        fin_raw = fin
+        fin = fin.inlined(only=own_f) if own_f else fin
         for b, i, s in upf_geo.stmts():
             for n in walk(s):
                 if n["k"] == "bin" and n["op"] == "&" and cv(n["r"]) is not None and strip_casts(n["l"])["k"] == "member" and cv(n["r"]) > 6:
@@ -697,7 +708,7 @@ def run(prog, rep):
             sxe = _sx.SymExec(fin)
             got = set()
             for b, i, n in fin.nodes():
-                if n["k"] == "asg" and n["op"] == "=" and strip_casts(n["l"])["k"] == "ref":
+                if n["k"] == "asg" and n["op"] == "=" and strip_casts(n["l"])["k"] in ("ref", "member"):      # a local, or a member of a local struct
                     t = _sx.norm(sxe.ev(n["r"], _sx.State())[0][0])
                     got.add(t)
             okb = want_low in got and want_high in got and W in (32, 64)
@@ -740,7 +751,7 @@ def run(prog, rep):
                                 if f0 and writes_through_param(callee, ai):
                                     out.add(f0)
             return out
-        w_upd = written(upf) | written(fin)
+        w_upd = written(upf) | written(fin_raw)
         w_rst = written(rst)
         config = set()
         for f in au.functions.values():
@@ -764,8 +775,11 @@ def run(prog, rep):
             for n in walk(s):
                 if n["k"] == "asg":
                     l = strip_casts(n["l"])
-                    if l is not None and l["k"] == "idx" and top_field(l["base"], p0):
-                        sts.append((b, i, n, l))
+                    if l is not None and l["k"] == "idx":
+                        base_ = fin.resolve(l["base"])          # `block = ctx->buf.buf; block[used] |= ...`
+                        if base_ is not None and top_field(base_, p0):
+                            l = dict(l, base=base_)
+                            sts.append((b, i, n, l))
         pairs = 0
         ok7, msg7 = True, ""
         for x in range(len(sts)):
